@@ -22,7 +22,7 @@ HARNESSES = {
         "files": ["harness/grpcgcp/zz_verif_gme_test.go", "harness/grpcgcp/zz_verif_pool_test.go"], "rewrite": "vclock",
         "extra_files": {"multiendpoint/zz_verif_dump.go": "harness/multiendpoint/zz_verif_dump.go"},
         "corpus_glob": "*.ops", "corpus_dirs": ["C15", "C16"],
-        "episode_start": r"^gme (new|livemon)",
+        "episode_start": r"^gme (new|livemon|liveorder)",
         "tiers": {"quick": {"episodes": 400}, "thorough": {"episodes": 3000, "seeds": 4}},
     },
     "st": {
@@ -170,7 +170,7 @@ PROPS = {
     "C15": {"harnesses": ["gme"], "lake_targets": ["GcpVerif"],
             "theorems": gme_thms(["rpc_routes_current", "pickME_known", "pickME_unknown", "pickME_no_name", "pools_exact_after_update", "only_missing_dialled"]) +
                         [("GcpVerif.Proofs.GME3", "GcpVerif.GME." + n) for n in ["update_syncs_status", "update_syncs_status_reach", "fold_sync_status"]] +
-                        [("GcpVerif.Proofs.Monitor", "GcpVerif.Monitor." + n) for n in ["blocked_means_told", "progress", "reread_misses_update", "monitor_loop_shape"]],
+                        [("GcpVerif.Proofs.Monitor", "GcpVerif.Monitor." + n) for n in ["blocked_means_told", "progress", "report_is_current", "reread_misses_update", "split_read_undoes_sync", "sync_read_missed_update", "monitor_loop_shape", "monitor_reads_state_under_lock", "status_update_wakes_monitors", "status_update_in_priority_order", "sync_tells_current"]],
             "leanchecker": ["GcpVerif.Proofs.GME", "GcpVerif.Proofs.GME3", "GcpVerif.Proofs.Monitor"], "trusted_base": GME_TB,
             "assumptions": ["'within bounded time' is observed only through the monitor's notification being delivered by the harness"]},
     "C16": {"harnesses": ["gme"], "lake_targets": ["GcpVerif"],
